@@ -961,6 +961,106 @@ def index_loops_to_enumerate(func):
     return func
 
 
+# ------------------------------------------------------------------------------------------- loop fission over a concatenation
+
+_VIEW_FUNCS = {"zip", "repeat", "itertools.repeat", "enumerate", "list", "tuple", "range", "len", "reversed", "chain", "itertools.chain"}
+
+
+def _view_pure(e) -> bool:
+    """an expression that only re-reads its operands (names, attributes, constants, displays, zip/repeat/enumerate/.. of such):
+    evaluating it a little later, or twice, gives the same sequence as long as the names it reads are not re-bound or mutated"""
+    if isinstance(e, (ast.Name, ast.Constant)):
+        return True
+    if isinstance(e, ast.Attribute):
+        return _view_pure(e.value)
+    if isinstance(e, (ast.Tuple, ast.List)):
+        return all(_view_pure(x.value if isinstance(x, ast.Starred) else x) for x in e.elts)
+    if isinstance(e, ast.BinOp) and isinstance(e.op, ast.Add):
+        return _view_pure(e.left) and _view_pure(e.right)
+    if isinstance(e, ast.Call) and ast.unparse(e.func) in _VIEW_FUNCS and not e.keywords:
+        return all(not isinstance(a, ast.Starred) and _view_pure(a) for a in e.args)
+    return False
+
+
+def _concat_parts(e):
+    """[A, B, ..] when `e` is the concatenation chain(A, B, ..) / A + B / [*A, *B] (possibly inside list(..) / tuple(..)), else None"""
+    if isinstance(e, ast.Call) and isinstance(e.func, ast.Name) and e.func.id in ("list", "tuple") and len(e.args) == 1 and not e.keywords:
+        return _concat_parts(e.args[0])
+    if isinstance(e, ast.Call) and ast.unparse(e.func) in ("chain", "itertools.chain") and len(e.args) >= 2 and not e.keywords \
+            and not any(isinstance(a, ast.Starred) for a in e.args):
+        return list(e.args)
+    if isinstance(e, (ast.List, ast.Tuple)) and len(e.elts) >= 2 and all(isinstance(x, ast.Starred) for x in e.elts):
+        return [x.value for x in e.elts]
+    if isinstance(e, ast.BinOp) and isinstance(e.op, ast.Add):
+        l, r = _concat_parts(e.left), _concat_parts(e.right)
+        if l is not None or r is not None or all(isinstance(x, (ast.Name, ast.List, ast.ListComp, ast.Call)) for x in (e.left, e.right)):
+            return (l or [e.left]) + (r or [e.right])
+    return None
+
+
+def _own_break(stmts) -> bool:
+    """a `break` that belongs to the enclosing loop"""
+    def rec(node):
+        for ch in ast.iter_child_nodes(node):
+            if isinstance(ch, ast.Break):
+                return True
+            if isinstance(ch, (ast.For, ast.While, ast.FunctionDef, ast.Lambda, ast.ClassDef)):
+                if any(isinstance(x, ast.Break) for s_ in getattr(ch, "orelse", []) for x in ast.walk(s_)):
+                    return True
+                continue
+            if rec(ch):
+                return True
+        return False
+    return any(isinstance(s_, ast.Break) or rec(s_) for s_ in stmts)
+
+
+def split_concat_loops(func):
+    """Loop fission: `for T in chain(A, B)` (also `A + B`, `[*A, *B]`, through list()/tuple(), or through a local bound just
+    before to such an expression and not changed since) is `for T in A: BODY` followed by `for T in B: BODY` -- the iterations, their
+    order and the final binding of T are the same.  Only for operands that merely re-read names (_view_pure) which the body does
+    not re-bind or mutate, and bodies without `break` / `else`.  A signed table `changes = chain(zip(repeat("-"), R), zip(repeat("+"), P))`
+    walked by one loop then reads as the two loops it abbreviates."""
+    def block(stmts, table):
+        out = []
+        table = dict(table)
+        for st in stmts:
+            if isinstance(st, ast.For) and not st.orelse and not _own_break(st.body):
+                parts = _concat_parts(st.iter)
+                if parts is None and isinstance(st.iter, ast.Name):
+                    parts = table.get(st.iter.id)
+                elif parts is not None and not all(_view_pure(p_) for p_ in parts):
+                    parts = None
+                if parts is not None:
+                    body_st = _stored(st.body) | {n.id for n in ast.walk(st.target) if isinstance(n, ast.Name)}
+                    free = set().union(*[_loaded(p_) for p_ in parts])
+                    if not (free & body_st) and not (isinstance(st.iter, ast.Name) and st.iter.id in body_st):
+                        for p_ in parts:
+                            new = ast.For(target=copy.deepcopy(st.target), iter=copy.deepcopy(p_), body=block(copy.deepcopy(st.body), table), orelse=[],
+                                          type_comment=None)
+                            ast.copy_location(new, st)
+                            ast.fix_missing_locations(new)
+                            out.append(new)
+                        continue
+            inner_st = _stored([st])
+            surviving = {k: v for k, v in table.items() if k not in inner_st and not (set().union(*[_loaded(p_) for p_ in v]) & inner_st)}
+            for fld in ("body", "orelse", "finalbody"):
+                b = getattr(st, fld, None)
+                if isinstance(b, list) and b and isinstance(b[0], ast.stmt) and not isinstance(st, (ast.FunctionDef, ast.ClassDef, ast.AsyncFunctionDef)):
+                    setattr(st, fld, block(b, surviving))
+            if isinstance(st, ast.Try):
+                for h in st.handlers:
+                    h.body = block(h.body, surviving)
+            table = surviving if not isinstance(st, (ast.Assign, ast.AnnAssign)) else {k: v for k, v in table.items() if k in surviving}
+            if isinstance(st, ast.Assign) and len(st.targets) == 1 and isinstance(st.targets[0], ast.Name):
+                parts = _concat_parts(st.value)
+                if parts is not None and all(_view_pure(p_) for p_ in parts) and st.targets[0].id not in set().union(*[_loaded(p_) for p_ in parts]):
+                    table[st.targets[0].id] = parts
+            out.append(st)
+        return out
+    func.body = block(func.body, {})
+    return func
+
+
 def normalize_function(func, tables: dict | None = None):
     """the local normalisations (no knowledge of other functions needed); `tables`: module-level literal tables (module_tables)"""
     try:
